@@ -477,7 +477,6 @@ class QCase(QBlock):
 
 
 class QUsePulses:
-    @classmethod
     def __init__(self, module, names):
         self.module = module
         self.names = self._validate_normalize_names(names)
